@@ -1,0 +1,13 @@
+//go:build verif
+
+package rogger
+
+// VerifYield, when set by a verification harness, is called by flushLog between its two
+// selects so that a test can widen that scheduling window deterministically.
+var VerifYield func()
+
+func verifYield() {
+	if VerifYield != nil {
+		VerifYield()
+	}
+}
